@@ -362,8 +362,8 @@ XS_LTYPES = {"memo": NNDICT, "start_node": TOpt(NODE), "start_node_to_match": TO
              "children_to_add": TList(NODE)}
 
 WRAPPERS = [("extract_tree_with_taxa", {"taxa": TList(TAXON)}),
-            ("extract_tree_with_taxa_labels", {"labels": TList(INT)}),
             ("extract_tree_without_taxa", {"taxa": TList(TAXON)}),
+            ("extract_tree_with_taxa_labels", {"labels": TList(INT)}),
             ("extract_tree_without_taxa_labels", {"labels": TList(INT)})]
 
 
@@ -383,14 +383,14 @@ class XGenerator(gm.Generator):
         x = a.args[0].arg
         free = sorted({n.id for n in ast.walk(lam.body) if isinstance(n, ast.Name)} - {x, "set"})
         for n in free:
-            if n not in [p[0] for p in fn.params]:
+            if n not in env.vars or env.vars[n][0] != "val" or env.vars[n][2][0] not in ("list", "int", "bool", "taxon"):
                 raise Unsupported("%s: lambda refers to %s" % (fn.name, n))
         sub = XFn(self, fn.cls, fn.fn, "pure", BOOL, fn.ptypes, None)
         sub.name = "%s__%s" % (fn.name, name)
         sub.params = fn.params
         lenv = gm.Env()
         for n in free:
-            lenv.vars[n] = env.vars[n]
+            lenv.vars[n] = ("val", n, env.vars[n][2])       # a parameter of the predicate, bound to the value at the call
         lenv.vars[x] = ("val", x, NODE)
         def no_raise(err, e):
             raise Unsupported("%s: the filter can raise %s" % (sub.name, err))
@@ -402,7 +402,7 @@ class XGenerator(gm.Generator):
             fn.need_implicit(n)
         self.extra_defs.append("(* %s of %s.%s: %s *)\nDefinition %s%s%s (s : mst G) (%s : (mnode G)) : bool :=\n  %s."
                                % (name, fn.cls, fn.fn.name, ast.unparse(lam), sub.name, imp, ptxt, x, body))
-        return "(%s%s%s)" % (sub.name, "".join(" " + n for n in sub.implicit), "".join(" " + n for n in free))
+        return "(%s%s%s)" % (sub.name, "".join(" " + n for n in sub.implicit), "".join(" " + env.vars[n][1] for n in free))
 
     def emit(self, out, fn, comment):
         self.extra_defs = []
@@ -482,6 +482,9 @@ class XGenerator(gm.Generator):
             ptypes.update(extra)
             fn = XFn(self, "Tree", f, "eff", NODE, ptypes, None, None)
             self.emit(out, fn, "Tree.%s" % name)
+            self.registry[("Tree", name, ())] = {      # a later wrapper may delegate to an earlier one
+                "coq": fn.name, "params": fn.params, "kind": "eff", "ret": NODE, "spec": (),
+                "rebinds_kids": fn.rebinds_kids, "needs_fuel": fn.needs_fuel, "implicit": list(fn.implicit)}
         out.append("End Extract.")
         out.append("")
         return "\n".join(out)
